@@ -15,6 +15,10 @@ NA = {
 PENDING = "not claimed yet: contracts for this property are still under construction (DESIGN.md section 8); it moves to checks when its obligations discharge"
 TECH = "contract-based deductive verification: //@ contracts on the real functions, VCs by symbolic execution (WP) over go/ssa of /repo's working tree, discharged by z3 5.1 / z3 4.8 / cvc5"
 CHECKS = {
+"C02": dict(
+  text="Denotational contract of the real lowering functions ssa.Builder.BinOp/UnOp/Convert: for every compile-time case (15 binary operators x 11 integer types, both shifts x 11x11 (operand, count) type pairs, unary -,^,!, all 11x11 integer conversions, plus sampled constant operands: 1089 cases, enumerated completely) and ALL run-time operand values, the emitted code panics exactly when Go mandates (division by zero, negative shift count, with the right runtime assertion), and otherwise has no LLVM undefined behaviour, yields no poison and denotes exactly the Go-spec result (wrap-around, truncated division, minInt/-1, shift saturation judged on the count's own type, comparisons by signedness, sign/zero extension by source type). The functions are executed on LLVM parameters (staged symbolic execution: the emitted IR is the symbolic result); obligations over it are discharged by SMT.",
+  note="Method note: the compile-time inputs are enumerated (finite, complete for integer types), the run-time inputs are symbolic; division/remainder are first treated as uninterpreted functions shared by spec and implementation (valid => valid), a sat answer is re-decided with the real operators. Trusted: LLVM LangRef semantics as transcribed (c02.go), LLVM passes/back ends, host lli for replay. NOT decided: float/complex arithmetic and float<->int conversions, Complex128Div, that cl passes go/ssa operands unchanged, 32-bit targets (W=32).",
+  ref="DESIGN.md §3 C02"),
 "C03": dict(
   text="Proof (for all argument values, no bound) that the run-time functions every slice expression, string slice and make([]T) is lowered to panic exactly when Go mandates it, before any heap write, and with the mandated message; obligations generated from /repo's current source on every run.",
   note="Decided: NewSlice3 (all 2-/3-index slice forms funnel here), StringSlice, MakeSlice (+ messages), send on / close of a closed channel and close of a nil channel (ChanSend, ChanTrySend, ChanClose; decided at the commit point under the channel lock). Not decided here: nil-dereference via SIGSEGV handler, recover-ability (C04), failed type assertion CFG, placement of checks by the compiler, send on a nil channel (Go spec: blocks forever), nil-map clause (see DESIGN.md). Trusted: go/ssa+go/types, SMT solvers, runtime/math.MulUintptr, allocator contract. Integers are 64-bit bit-vectors (W=64 only).",
